@@ -492,12 +492,15 @@ class Run:
         table = {"isspmatrix": sparse, "isinstance": False, "mf._is_upper_triangular": triangular, "np.allclose": allclose}
         orc = call_oracle(table) if converge is None else Converge(converge, table)
         self.it = it = Interp(ctx, EXPM, hook=scalar_hook(extra, d=t, ell=dict(ell or {})), oracle=orc)
-        if q == "expmint":
-            self.ret = it.call("expmint", [x, h, geti2])
-            self.A = x * h
-        else:
-            self.ret = it.call("_expm_SS", [x, x, F.const(1)])
-            self.A = x
+        # a construct the evaluator cannot lower on this route makes the route's obligations analysis errors, not the whole rule
+        try:
+            if q == "expmint":
+                self.ret = it.call("expmint", [x, h, geti2])
+            else:
+                self.ret = it.call("_expm_SS", [x, x, F.const(1)])
+        except Unsupported as e:
+            self.ret = I.Unknown(f"unsupported construct: {e}")
+        self.A = x * h if q == "expmint" else x
         self.pq = _last(it.calls, "mf._solve_P_Q")
         self.order = None
         if self.pq is not None and len(self.pq.pos) >= 2:
